@@ -562,3 +562,139 @@ def c11(tier):
     return run_e2('C11', tier, body, bounds='every import multigraph over 3 files with 2 import slots each and every start file (quick), plus 2 files with a missing target; '
                   'thorough: 4 files x 2 slots, 3 files x 3 slots, 3 files with missing targets. Reachability is encoded as a z3 formula over the slot selectors. '
                   'Divergence = call depth > 60 frames. Outside: more files, malformed siblings (never parsed: shown by the parse-event check).')
+
+
+# ================================================================================================ C12
+
+def c12(tier):
+    def body(s):
+        ctx = s.ctx
+        driver = native.build_driver()
+        s.functions.update(n for n in ctx.bodies if re.search(r'Soap(Binding|Service|Port|Message|Operation)|read_body_port_message|map_to_rust_node|write_soap|write_async|read_xml|Files::', n) and '::tests::' not in n)
+        # ---- (i) hash seeds: every HashMap iterates in an arbitrary (symbolic) order
+        docs = []
+        w = F.wsdl_multi(3 if tier == 'thorough' else 2, multipart=True)
+        from xmltree import build, to_xml
+        docs.append(('multi.wsdl', {'multi.wsdl': to_xml(build(w.tree()))}))
+        docs.append(('all_emitters.wsdl', corpus_files('all_emitters.wsdl')))
+        if tier == 'thorough':
+            for rel in ['resources/number_services/number_services.wsdl', 'zeep-lib/test-data/tempconverter.wsdl']:
+                docs.append(repo_files(rel))
+        for name, files in docs:
+            s.scenarios += 1
+            sc = Scenario('hash-order:' + name, files, name, [], hash_sym=True)
+            res = sc.explore(ctx)
+            s.count(res)
+            texts = {}
+            for m, out in res:
+                if out[0] != 'ok' or out[1][0] != 'ok':
+                    continue
+                t = H.rope_text(m, out[1][1])
+                texts.setdefault(t, []).append([e for e in m.events if e[0] == 'hash_order'])
+            if len(res) > 1:
+                s.nontrivial += 1
+            s.samples.append(dict(check='hash-order', document=name, paths=len(res), distinct_outputs=len(texts),
+                                  symbolic='iteration order of every HashMap (one permutation selector per map)'))
+            if len(texts) > 1:
+                # what differs: only the order of blocks, or the content (choice of the body part)?
+                norm = {H.op_blocks_normalised(t) for t in texts}
+                kind = 'order-of-operations' if len(norm) == 1 else 'content-depends-on-hash-order'
+                key = 'c12/hash-seed/' + kind
+                # native replay (statistical by nature): fresh processes until two outputs differ
+                seen = set()
+                for i in range(48):
+                    rc, txt, lg = H.native_generate(ctx, files, name)
+                    seen.add(txt)
+                    if len(seen) > 1:
+                        break
+                s.replays += 1
+                two = list(texts)[:2]
+                rdir = save_replay('C12', 'hash_' + re.sub(r'\W+', '_', name) + '_' + kind, dict(list(files.items()) + [
+                    ('finding.txt', '%s: %d distinct outputs over the HashMap iteration orders; native: %d distinct outputs in %d fresh processes\n' % (key, len(texts), len(seen), i + 1)),
+                    ('output_order_A.rs', two[0]), ('output_order_B.rs', two[1])]))
+                if len(seen) > 1:
+                    s.rep.violation(key, '%s: output differs between processes (%s)' % (name, kind), rdir)
+                else:
+                    s.rep.inconc('ENCODING-MISMATCH %s: SMI finds %d outputs over hash orders but 48 native runs agree' % (name, len(texts)))
+        # ---- (ii) registration order of the file set, (iii) repeated calls on the same FilesToRead
+        from schema_model import CT, Seq, El, Schema as Sch
+        fa = Sch('urn:a', [CT('A', Seq([El('x', 'b:B'), El('y', 'c:C')]))], prefixes={'a': 'urn:a', 'b': 'urn:b', 'c': 'urn:c'}, imports=[('urn:b', 'b.xsd'), ('urn:c', 'c.xsd')])
+        fb = Sch('urn:b', [CT('B', Seq([El('z', 'c:C')]))], prefixes={'b': 'urn:b', 'c': 'urn:c'}, imports=[('urn:c', 'c.xsd')])
+        fc = Sch('urn:c', [CT('C', Seq([El('w', 'xs:int')]))], prefixes={'c': 'urn:c'})
+        files3 = {'a.xsd': to_xml(build(fa.tree())), 'b.xsd': to_xml(build(fb.tree())), 'c.xsd': to_xml(build(fc.tree()))}
+        from xmltree import perms as _perms
+        order = Selector('registration_order', [tuple(['a.xsd', 'b.xsd', 'c.xsd'][i] for i in p) for p in _perms(3)])
+        repeat = Selector('calls', [1, 2, 3])
+        s.scenarios += 1
+
+        def entry(m):
+            m.pc.append(order.domain)
+            m.pc.append(repeat.domain)
+            o = m.concretize(order.sym())
+            n = m.concretize(repeat.sym())
+            ftr = H.make_files(m, files3, 'a.xsd', order=list(o))
+            outs = []
+            for i in range(n):
+                r = H.read_xml(m, ftr)
+                if r.variant != 0:
+                    outs.append(('read_err', r.fields[0]))
+                    continue
+                r2, sink = H.write_xml(m, r.fields[0])
+                outs.append(('ok', H.rope_text(m, sink)) if r2.variant == 0 else ('write_err', None))
+            return (o, n, outs)
+        res = explore(lambda: H.machine(ctx), entry)
+        s.count(res)
+        if len(res) > 1:
+            s.nontrivial += 1
+        first = None
+        by_order = {}
+        hist_bad = None
+        for m, out in res:
+            if out[0] != 'ok':
+                s.rep.inconc('c12 history scenario: %s' % (out[1],))
+                continue
+            o, n, outs = out[1]
+            by_order.setdefault(outs[0], []).append(o)
+            if any(x != outs[0] for x in outs[1:]) and hist_bad is None:
+                hist_bad = (o, n, outs)
+        s.samples.append(dict(check='registration-order x call-history', paths=len(res), distinct_first_outputs=len(by_order),
+                              symbolic='order of Files::new/add over all 6 permutations; 1..3 read_xml+write_xml calls on the same FilesToRead'))
+        if len(by_order) > 1:
+            d = tempfile.mkdtemp(prefix='zeep-verif-c12.')
+            try:
+                write_files(d, files3)
+                orders = [v[0] for v in by_order.values()][:2]
+                outs_n = []
+                for o in orders:
+                    rc, out_, _ = native.run_driver(driver, d, 'a.xsd', os.path.join(d, '__o'), order=list(o))
+                    outs_n.append(open(os.path.join(d, '__o.0')).read() if os.path.exists(os.path.join(d, '__o.0')) else None)
+            finally:
+                rmtree(d)
+            s.replays += 1
+            rdir = save_replay('C12', 'registration_order', dict(list(files3.items()) + [('finding.txt', 'outputs differ between registration orders %s' % (orders,))]))
+            if outs_n[0] != outs_n[1]:
+                s.rep.violation('c12/registration-order', 'output depends on the order in which the files are registered: %s' % (orders,), rdir)
+            else:
+                s.rep.inconc('ENCODING-MISMATCH registration order: native outputs agree')
+        if hist_bad is not None:
+            o, n, outs = hist_bad
+            d = tempfile.mkdtemp(prefix='zeep-verif-c12.')
+            try:
+                write_files(d, files3)
+                rc, out_, _ = native.run_driver(driver, d, 'a.xsd', os.path.join(d, '__o'), order=list(o), repeat=n)
+                nat = [open(os.path.join(d, '__o.%d' % i)).read() for i in range(n) if os.path.exists(os.path.join(d, '__o.%d' % i))]
+            finally:
+                rmtree(d)
+            s.replays += 1
+            rdir = save_replay('C12', 'call_history', dict(list(files3.items()) + [
+                ('finding.txt', 'call %d on the same FilesToRead gives a different result than call 1 (order %s)\nnative driver: %s' % (n, o, out_)),
+                ('replay.sh', '%s gen . a.xsd out --repeat %d\n' % (driver, n))]))
+            if len(set(nat)) > 1 or 'ERR' in out_ or 'PANIC' in out_:
+                s.rep.violation('c12/call-history', 'repeating read_xml on the same FilesToRead changes the output (call %d differs from call 1)' % n, rdir)
+            else:
+                s.rep.inconc('ENCODING-MISMATCH call history: native outputs agree: %s' % out_)
+    return run_e2('C12', tier, body, bounds='(i) all iteration orders of every HashMap with <= 3 entries on a generated 2-operation (thorough: 3) WSDL with a two-part message and '
+                  'the all-emitters WSDL; (ii) all 6 registration orders of a 3-file import chain x (iii) call histories of length 1..3 on the same FilesToRead. '
+                  'Outside: maps with more entries, directory enumeration order of the CLI (covered by (ii) through Files::add order).',
+                  extra_assumptions=['HashMap contract: iteration order is arbitrary but fixed while the map is not modified; each map gets its own order',
+                                     'replay of hash-seed findings is statistical: fresh native processes until two outputs differ (<= 48 runs)'])
